@@ -107,13 +107,22 @@ def cstr(ctx, prog):
             ok = len(il) == 1
             if ok:
                 I = ("L", il[0])
-                cell = ("deref", ("ptr_add", start, I))
-                ok = ne(cell, Int(0, "u8")) in [table.norm_atom(table.strip_gargs(c)) for c in back[0].conds]
-                ok = ok and eq(cell, Int(0, "u8")) in [table.norm_atom(table.strip_gargs(c)) for c in rets[0].conds]
-                ok = ok and table.strip_gargs(rets[0].value) == ("raw_parts", start, ("bin", "Add", I, Int(1)))
+                # the counter may count the bytes seen so far (from 0: tests byte i, returns i + 1 bytes) or the bytes including the
+                # one under test (from 1: tests byte len - 1, returns len bytes) - the same walk with i = len - 1
+                init = None
                 for e in rets[0].events:
-                    if e[0] == "loop" and dict(e[2]).get(il[0]) != Int(0):
-                        ok = False
+                    if e[0] == "loop":
+                        init = dict(e[2]).get(il[0])
+                ok = False
+                for c0 in (0, 1):
+                    off = I if c0 == 0 else ("bin", "Sub", I, Int(1))
+                    cnt = ("bin", "Add", I, Int(1)) if c0 == 0 else I
+                    cell = ("deref", ("ptr_add", start, off))
+                    if init == Int(c0) \
+                            and ne(cell, Int(0, "u8")) in [table.norm_atom(table.strip_gargs(c)) for c in back[0].conds] \
+                            and eq(cell, Int(0, "u8")) in [table.norm_atom(table.strip_gargs(c)) for c in rets[0].conds] \
+                            and table.strip_gargs(rets[0].value) == ("raw_parts", start, cnt):
+                        ok = True
         if not ok:
             _viol(ctx, "CSTR", key, "to_bytes_with_nul is not `walk from the start to the first nul byte, return the i+1 bytes`", b)
         ctx.instance("CSTR", key, sample={"fn": "to_bytes_with_nul", "template": "walk to first 0, count i+1"})
